@@ -380,7 +380,7 @@ def git_once(ctx, h, idx, root, names):
     return {"kind": "git", "c": h, "o": o, "idx": idx}
 
 
-def replay(sub, chunk):
+def replay_chunk(sub, chunk):
     root = cc.scratch_root() or sub.workdir
     rows = []
     for idx, kind, h in chunk:
@@ -393,6 +393,7 @@ def replay(sub, chunk):
 def run(ctx):
     env.init()
     cc.preload()
+    cc.quiet()
     q = ctx.quick
     hs = cc.universe(ctx, nsmall=25 if q else 300, nlarge=45 if q else 1300, max_revs=4 if q else 5)
     items = []
@@ -400,7 +401,7 @@ def run(ctx):
         items.append((i, "native", h))
         if i % 2 == 1:                                         # (odd: so that the one-character-name variant occurs too)
             items.append((i, "git", h))
-    core.fork_map(ctx, replay, items)
+    core.fork_map(ctx, replay_chunk, items)
     rows = ctx.collected
     if len(rows) != len(items):
         ctx.machinery("replayed %d of %d experiments" % (len(rows), len(items)))
@@ -492,3 +493,20 @@ def run(ctx):
             ctx.drift("python twin of the laws (%s) and TLC (%s) disagree on %s history %s" % (
                 r["pyfail"], (r["kind"], r["idx"]) in judged_bad, r["kind"], cc.hkey(r["c"])), cc.lean(r))
     ctx.cov["minimisation_runs"] = sum(r.get("min_runs", 0) for r in rows)
+
+
+def replay(ctx, rep):
+    """./check C35 --replay FILE: run the recorded (minimal, else original) history again and let TLC judge it."""
+    import json
+    env.init()
+    cc.preload()
+    cc.quiet()
+    row = rep["replay"]
+    h = row.get("minimal") or row["c"]
+    idx = row.get("idx", 0)
+    once = native_once if row.get("kind") == "native" else git_once
+    now = once(ctx, h, idx, cc.scratch_root() or ctx.workdir, cc.names_of(idx))
+    print(json.dumps({"history": h, "kind": now["kind"], "observed_now": cc.lean(now["o"])}, indent=1))
+    for _, failed, drifts, notes in cc.judge(ctx, [now]):
+        for f in failed:
+            ctx.violation("replay:" + f, "clause %s fails on replay" % f, cc.lean(now))
